@@ -147,6 +147,7 @@ func runC16(c *Ctx) {
 	c16Automaton(c)
 	c16ThresholdsPositive(c)
 	c16ActiveFlagOwner(c)
+	c16SessionLifetime(c)
 	c16EveryCheckTimed(c)
 }
 
@@ -994,4 +995,99 @@ func c16EveryCheckTimed(c *Ctx) {
 		}
 	}
 	c.Pass("C16.R3", "pkg/upstream/healthcheck:timers-replaced-not-reset", fn.Pos(), "no utils.Timer.Reset call in the package")
+}
+
+// c16SessionLifetime (R3): a health-check session lives exactly as long as its address is in the host set.
+// The consecutive-success / consecutive-failure counters of the threshold automaton live in the session (sessionChecker).
+// "unhealthy_threshold consecutive failures flip the host" therefore holds only if a host-set update does not restart the
+// sessions of the addresses that stay. Clause, who-may-call with argument origin: healthChecker.stopCheck is called only
+// (a) from the whole-set teardown (stop), or (b) in SetHealthCheckerHostSet on an element of the *deleted* hosts computed
+// by findNewAndDeleteHost (first result); startCheck only from the whole-set start or on an element of the *new* hosts
+// (second result). A pass that re-creates the session of a continuing address zeroes its streak: with a push between the
+// checks the threshold is never reached.
+func c16SessionLifetime(c *Ctx) {
+	pkg := "pkg/upstream/healthcheck"
+	diff := c.F(pkg, "findNewAndDeleteHost")
+	if diff == nil {
+		c.Unresolved("C16.R3", "findNewAndDeleteHost")
+		return
+	}
+	// element of result #idx of findNewAndDeleteHost
+	elementOf := func(v ssa.Value, idx int) bool {
+		for i := 0; i < 6; i++ {
+			switch x := v.(type) {
+			case *ssa.UnOp:
+				v = x.X
+				continue
+			case *ssa.IndexAddr:
+				v = x.X
+				continue
+			case *ssa.Extract:
+				if call, ok := x.Tuple.(*ssa.Call); ok && call.Common().StaticCallee() == diff {
+					return x.Index == idx
+				}
+				// value of a `range` over the slice: Next tuple
+				if nx, ok := x.Tuple.(*ssa.Next); ok {
+					if rg, ok := nx.Iter.(*ssa.Range); ok {
+						v = rg.X
+						continue
+					}
+				}
+				return false
+			case *ssa.Phi:
+				for _, e := range x.Edges {
+					if _, isC := e.(*ssa.Const); isC {
+						continue
+					}
+					v = e
+				}
+				continue
+			}
+			return false
+		}
+		return false
+	}
+	n := 0
+	ord := ordCounter{}
+	for _, fn := range c.PkgFuncs(pkg) {
+		forEachInstr(fn, false, func(f *ssa.Function, in ssa.Instruction) {
+			ci, ok := in.(ssa.CallInstruction)
+			if !ok {
+				return
+			}
+			name := methodName(ci.Common())
+			if name != "stopCheck" && name != "startCheck" {
+				return
+			}
+			callee := ci.Common().StaticCallee()
+			if callee == nil || callee.Signature.Recv() == nil || !strings.HasSuffix(typeName(callee.Signature.Recv().Type()), "healthcheck.healthChecker") {
+				return
+			}
+			n++
+			top := f
+			for top.Parent() != nil {
+				top = top.Parent()
+			}
+			args := argsOf(ci.Common())
+			okSite := false
+			switch {
+			case name == "stopCheck" && top.Name() == "stop", name == "startCheck" && top.Name() == "start":
+				okSite = true
+			case top.Name() == "SetHealthCheckerHostSet" && f == top && len(args) > 0:
+				if name == "stopCheck" {
+					okSite = elementOf(args[len(args)-1], 0)
+				} else {
+					okSite = elementOf(args[len(args)-1], 1)
+				}
+			}
+			what := "deleted"
+			if name == "startCheck" {
+				what = "new"
+			}
+			c.Check("C16.R3", ord.next(f, "session-lifetime:"+name), in.Pos(), okSite, "called for the whole set, or on an element of the "+what+" hosts of findNewAndDeleteHost", name+" is called in "+top.Name()+" for a host that is not one of the "+what+" hosts of the update: the session of an address that stays in the set is re-created, its consecutive-result counters restart at zero, and with a host-set push between the checks the configured threshold is never reached (or a flipped flag is not flipped back)")
+		})
+	}
+	if n < 4 {
+		c.Unresolved("C16.R3", fmt.Sprintf("stopCheck/startCheck call sites (found %d)", n))
+	}
 }
